@@ -453,6 +453,9 @@ func c04WireStream(L int, tcp bool) func() {
 		if tcp {
 			cut = []int{0, 3, 6, 11, -1, -2}[mc.Choose(6, mc.Free)]
 		}
+		// UDP: in front of every request the network may deliver a cut-off copy of it (the header, which
+		// announces the whole frame, and the connection header): no tunnelling request, to be dropped
+		cutCopy := !tcp && mc.Choose(2, mc.Free) == 1
 		model := &refReceiver{ch: c04Channel, tcp: tcp}
 		var glued []byte
 		for id := 0; id < L; id++ {
@@ -460,6 +463,10 @@ func c04WireStream(L int, tcp bool) func() {
 			mc.Log(Inj{ch, seq, id})
 			model.step(ch, seq)
 			fr := pack(&knxnet.TunnelReq{Channel: ch, SeqNumber: seq, Payload: Msg(id)})
+			if cutCopy {
+				ep.Inject(fr[:10], nil)
+				mc.Sleep(1 * ms)
+			}
 			switch {
 			case cut == -2: // coalesced: everything in one segment at the end
 				glued = append(glued, fr...)
